@@ -344,10 +344,19 @@ func runCheck(id, tier string, seed uint64, workers, runs, ms int, replay, work 
 		if abs, err := filepath.Abs(replay); err == nil {
 			replay = abs
 		}
+		rtier := tier
+		if rb, err := os.ReadFile(replay); err == nil {
+			var rf struct {
+				Tier string `json:"tier"`
+			}
+			if json.Unmarshal(rb, &rf) == nil && rf.Tier != "" {
+				rtier = rf.Tier
+			}
+		}
 		cmd := exec.Command(bin, "-test.run", "^TestWorker$", "-test.timeout", "0", "-test.cpu", "1")
 		cmd.Dir = work
 		resPath := filepath.Join(work, "replay.json")
-		cmd.Env = append(env(), "VERIF_PROP="+id, "VERIF_REPLAY="+replay, "VERIF_OUT="+resPath, "GODEBUG=randseednop=0",
+		cmd.Env = append(env(), "VERIF_PROP="+id, "VERIF_REPLAY="+replay, "VERIF_OUT="+resPath, "VERIF_TIER="+rtier, "GODEBUG=randseednop=0",
 			"VERIF_RACE_LOG="+filepath.Join(work, "race-replay"),
 			"GORACE=halt_on_error=0 log_path="+filepath.Join(work, "race-replay")+" suppress_equal_stacks=0 suppress_equal_addresses=0 exitcode=0")
 		cmd.Stdout = os.Stdout
